@@ -143,7 +143,17 @@ func (s *Sidecar) prometheus(w http.ResponseWriter, req *http.Request) {
 }
 
 func installHooks() {
+	// the commands log through fresh loggers on os.Stderr (the runtime's crash output does
+	// not go through this variable and stays visible)
+	if os.Getenv("KVSIM_LOGS") == "" {
+		if f, err := os.OpenFile(os.DevNull, os.O_WRONLY, 0); err == nil {
+			os.Stderr = f
+		}
+	}
 	listen := func(addr string, h http.Handler) error {
+		if addr == CoordAddr {
+			return coordListen(h)
+		}
 		mu.Lock()
 		s := starting
 		if s == nil {
@@ -241,6 +251,17 @@ func Start(opt Options) *Sidecar {
 	starting = nil
 	mu.Unlock()
 	return s
+}
+
+// SetClientTransport decides which transport the HTTP clients that pkg/scrape builds from now on get
+// (a world with a coordinator and sidecars in one process switches it around configuration loads).
+func SetClientTransport(tr http.RoundTripper) {
+	if tr == nil {
+		verifhook.ClientFn.Store(nil)
+		return
+	}
+	fn := func(c *http.Client) { c.Transport = tr }
+	verifhook.ClientFn.Store(&fn)
 }
 
 // Stop ends the "process": its listeners return, the command body returns.
